@@ -269,7 +269,11 @@ class Agg:
         fm = re.search(r"(/repo/src/[\w/]+\.rs:\d+)", err)
         frame = fm.group(1).replace("/repo/", "") if fm else "?"
         mseed = re.search(r"FAILING SEED: (\d+)", err)
-        excerpt = err[:3000] if len(err) < 3000 else err[:1500] + " ... " + err[-1500:]
+        k = err.find("error: Undefined Behavior")
+        if k < 0:
+            k = max(err.find("error:"), err.find("ERROR:"), err.find("WARNING: ThreadSanitizer"), 0)
+        err = err[k:]
+        excerpt = err[:3000] if len(err) < 3000 else err[:2000] + " ... " + err[-1000:]
         detail = f"{sig} at {frame}" + (f" (miri seed {mseed.group(1)})" if mseed else "") + " :: " + excerpt.replace("\n", " | ")[:2500]
         owner = self.prop
         # a sanitizer report is attributed to the property whose check is running when that
